@@ -332,10 +332,21 @@ class Result:
         if sample is not None and len(self.samples) < 5:
             self.samples.append(sample)
 
-    def violation(self, what: str, case, impl=None, model=None, finding_key=None, clause=None):
+    def stricter(self, what: str, case, impl=None, model=None, clause=None):
+        """a difference on a tie that is STRICTER than anything the property or a theorem needs (the exact spacing of emitted code,
+        compared in addition to its structure): recorded in the evidence, never an alarm by itself"""
+        store = self.__dict__.setdefault("_stricter", [])
+        self.count("stricter_tie_differences")
+        if len(store) < 5:
+            store.append({"what": what, "clause": clause, "input": case, "implementation": impl, "model": model})
+
+    def violation(self, what: str, case, impl=None, model=None, finding_key=None, clause=None, tie_only=False):
+        """tie_only: a disagreement between model and code on an observable the property does NOT determine (the exact text of
+        emitted code, how a malformed text is refused ...).  It means the correspondence no longer checks, not that the property
+        fails on this input: alone, it is reported as `no-failing-input-found` after a deeper search."""
         if len(self.violations) < 400:
             self.violations.append({"what": what, "clause": clause, "input": case, "implementation": impl, "model": model,
-                                    "finding_key": finding_key})
+                                    "finding_key": finding_key, "tie_only": bool(tie_only)})
 
     def remember(self, case, thunk, value, clause="independence of the call history", limit=120):
         """register a call for the replay pass: `thunk()` made again at the end of the run, after all the other calls of this
@@ -366,6 +377,8 @@ class Result:
         self.replay()
         # smallest failing input first: it is the one reported and stored as replay
         self.violations.sort(key=lambda v: len(json.dumps(v.get("input"), default=str)))
+        if self.__dict__.get("_stricter"):
+            self.distribution["stricter_tie_first_differences"] = self._stricter
         return {"evaluations": self.evaluations, "distinct_nontrivial": len(self.nontrivial), "rule": self.rule,
                 "samples": self.samples, "violations": self.violations, "distribution": self.distribution,
                 "skipped": self.skipped}
